@@ -5,7 +5,7 @@ from hypothesis import strategies as st
 from ..core import Clause, Violation, Discard
 from .. import gens, refmodel
 
-RULE = ("Cases: order-one signals (all families, 6..256 samples) x stop rule x step x interpolator x pad width 1..5 x parabolic refinement on/off, "
+RULE = ("Cases: order-one signals (all families, 6..256 samples) x stop rule x step x interpolator x pad width 1..5 x parabolic refinement on/off x magnitude padding rule {default, mean, median, edge, symmetric} (one options dictionary object per case, shared by all calls), "
         "transformed by (dyadic) c = +-2^k, |k|<=8 - asserted bit for bit on every case for get_next_imf and for "
         "sift(c*x, sift_thresh=|c|*t); (real) c real with 1e-3<=|c|<=1e3 and (reverse) x[::-1] - asserted to 1e-6 "
         "relative on the prefix of IMFs whose extraction the reference model shows well conditioned (stop metric > "
@@ -30,14 +30,26 @@ def base_case(draw, max_n=256):
     else:
         opts['max_iters'] = draw(st.integers(1, 20))
     return {'sig': sig, 'opts': opts, 'interp': draw(st.sampled_from(['splrep', 'pchip', 'mono_pchip'])),
-            'pad': draw(st.integers(1, 5)), 'par': draw(st.sampled_from([False, False, False, True]))}
+            'pad': draw(st.integers(1, 5)), 'par': draw(st.sampled_from([False, False, False, True])),
+            'magpad': draw(st.sampled_from([None, None, None, 0, 1, 2, 3]))}
+
+
+# magnitude padding rules that are odd and homogeneous (pad(-c*m) == -c*pad(m)), so the relations still have to hold with them
+# ('maximum' / 'minimum' are not: the same rule serves peaks and troughs)
+MAGPADS = [{'mode': 'mean', 'stat_length': 3}, {'mode': 'median', 'stat_length': 3}, {'mode': 'edge'}, {'mode': 'symmetric'}]
 
 
 def xopts(case):
-    xo = {'pad_width': case['pad']}
-    if case.get('par'):
-        xo['parabolic_extrema'] = True
-    return xo
+    """The extrema options of a case - ONE dictionary object per case, handed to every call the oracle makes (to the
+    extraction of x and of its transform alike), as a caller holding one options object would."""
+    if '_xo' not in case:
+        xo = {'pad_width': case['pad']}
+        if case.get('par'):
+            xo['parabolic_extrema'] = True
+        if case.get('magpad') is not None:
+            xo['mag_pad_opts'] = dict(MAGPADS[case['magpad']])
+        case['_xo'] = xo
+    return case['_xo']
 
 
 def tiered(fn):
